@@ -154,6 +154,7 @@ func setup(t *testing.T) {
 	if err != nil {
 		t.Fatal(err)
 	}
+	t.Cleanup(func() { os.RemoveAll(dir) })
 	cfg := types.Config{}
 	cfg.LockTimeout = 10 * time.Second
 	cfg.GlobalTimeout = 30 * time.Second
